@@ -58,6 +58,11 @@ class IncrementalCell(Cell):
 
     prev_evaluation_date = property(lambda self: self._prev_evaluation_date)
 
+    def __hash__(self):
+        # Defining __eq__ below would otherwise set __hash__ to None and make incremental
+        # cells (and triangles of them) unhashable.
+        return hash((super().__hash__(), self._prev_evaluation_date))
+
     def __eq__(self, other: Cell) -> bool:
         return (
             super().__eq__(other)
